@@ -330,17 +330,21 @@ func (k Keeper) deductFromdelegation(ctx context.Context, delAddr sdk.AccAddress
 	currentTokens := validator.TokensFromShares(del.Shares)
 	shares := del.Shares
 	if currentTokens.GTE(delTokens) {
-		shares, err = validator.SharesFromTokens(delTokens.RoundInt())
+		amt := delTokens.RoundInt()
+		shares, err = validator.SharesFromTokens(amt)
 		if err != nil {
 			return math.LegacyDec{}, err
 		}
-		delTokens = math.LegacyZeroDec()
-	} else {
-		delTokens = delTokens.Sub(currentTokens)
+		// SharesFromTokens rounds down: with an exchange rate other than one the shares can be worth one unit less than
+		// the amount recorded for the dispute, so take the smallest number of shares that is worth the whole amount
+		if shares.MulInt(validator.Tokens).LT(validator.DelegatorShares.MulInt(amt)) && shares.LT(del.Shares) {
+			shares = shares.Add(math.LegacySmallestDec())
+		}
 	}
 
+	removedTokens := math.ZeroInt()
 	if !shares.IsZero() {
-		removedTokens, err := k.stakingKeeper.Unbond(ctx, delAddr, valAddr, shares)
+		removedTokens, err = k.stakingKeeper.Unbond(ctx, delAddr, valAddr, shares)
 		if err != nil {
 			return math.LegacyDec{}, err
 		}
@@ -349,7 +353,13 @@ func (k Keeper) deductFromdelegation(ctx context.Context, delAddr sdk.AccAddress
 			return math.LegacyDec{}, err
 		}
 	}
-	return delTokens, nil
+	// what is still missing is measured against the whole units that actually left the delegation, not against the
+	// fractional token value of its shares
+	remaining := delTokens.Sub(math.LegacyNewDecFromInt(removedTokens))
+	if remaining.IsNegative() {
+		remaining = math.LegacyZeroDec()
+	}
+	return remaining, nil
 }
 
 func (k Keeper) MoveTokensFromValidator(ctx context.Context, validator stakingtypes.Validator, amount math.Int) error {
